@@ -426,6 +426,36 @@ def scen_identity(rng):
     return {'tree': [], 'funcs': funcs, 'steps': steps}
 
 
+LONG = 'L' * 300   # longer than NAME_MAX
+
+
+def scen_longname(rng):
+    """a target whose final or an intermediate component is longer than the file system allows: the
+    mkdir resp. the function's own write fails with OSError; nothing may be left behind"""
+    d1, d2 = rng.sample(NAMES, 2)
+    where = rng.choice(['final', 'middle', 'first'])
+    if where == 'final':
+        target = '%s/%s/%s' % (d1, d2, LONG) if rng.random() < 0.6 else '%s/%s' % (d1, LONG)
+    elif where == 'middle':
+        target = '%s/%s/x' % (d1, LONG) if rng.random() < 0.5 else '%s/%s/%s/x' % (d1, d2, LONG)
+    else:
+        target = '%s/%s/x' % (LONG, d1)
+    mode = rng.choice(['write', 'nowrite', 'raise'])
+    body = {'write': [['w', None]], 'nowrite': [], 'raise': [['raise', 8]]}[mode]
+    sibling = '%s/ok' % d1
+    funcs = [
+        _fn('f0', [_bf(target, 1, catch=True, cmp_=rng.choice('MH'))] + _probe(rng, [d1, '%s/%s' % (d1, d2), ''], 3)
+            + [_bf(sibling, 2, catch=True)] + _probe(rng, [d1, sibling, ''], 2)),
+        _fn('f1', _probe(rng, [d1, ''], 1) + body),
+        _fn('f2', [['w', None]]),
+    ]
+    funcs.append(_fn('rootfail', funcs[0]['stmts'] + [['raise', 99]]))
+    steps = [_build(), _build(root=rng.choice([0, 0, 3])), _build()]
+    if rng.random() < 0.5:
+        steps.append(['clean', 'n'])
+    return {'tree': [], 'funcs': funcs, 'steps': steps}
+
+
 SCENARIOS = [scen_nested_failure, scen_swap, scen_stale_dir, scen_dups, scen_versions, scen_reads, scen_identity]
 
 
